@@ -1,4 +1,4 @@
-\* C15 as the code is written (Fix = {}): TLC finds the wake-up deadlocks (see DESIGN.md section 10)
+\* C15, the protocol as implemented (all three repairs are in the code): deadlock freedom
 CONSTANTS
   NClients = 2
   NCommits = 2
@@ -6,7 +6,7 @@ CONSTANTS
   MaxL = 1
   MaxLogs = 1
   MinLog = 0
-  Faults = FALSE
-  Fix = {}
+  Faults = TRUE
+  Fix = {"S1", "S2", "S7"}
 SPECIFICATION Spec
 INVARIANTS TypeOK AllPersisted
